@@ -54,7 +54,7 @@ fn gen_cfg(prop : &str, thorough : bool, rng : &mut Rng) -> GenCfg
     match prop
     {
         "C04" => { g.failing = true; g.missing_leaves = rng.chance(1, 2); },
-        "C05" => { g.failing = rng.chance(1, 2); g.missing_leaves = rng.chance(1, 2); g.prune_dirs = rng.chance(1, 6); },
+        "C05" => { g.failing = rng.chance(1, 2); g.missing_leaves = rng.chance(1, 2); g.prune_dirs = rng.chance(1, 6); g.dir_at_target = rng.chance(1, 5); },
         "C06" =>
         {
             if rng.chance(1, 3)
